@@ -220,6 +220,78 @@ def hdf5_verdict_names(repo):
         'groups': loop_reports('required_groups', 'table'),
         'datasets': loop_reports('required_datasets', 'table'),
     }
+    # form-independent reading: every `<name> not in <container>` test,
+    # whether it sits in a loop over a literal of names (any variable or
+    # class constant, resolved by the normaliser) or was written / unrolled
+    # one name at a time
+    def reports_on_every_path(body):
+        for b in body:
+            if _is_report_append(b) is not None:
+                return True
+            if any(isinstance(y, (ast.Continue, ast.Break, ast.Return))
+                   for y in ast.walk(b)):
+                return False
+        return False
+
+    def literal_names(e):
+        out_ = set()
+        if isinstance(e, (ast.Tuple, ast.List)):
+            for x in e.elts:
+                if const_str(x):
+                    out_.add(const_str(x))
+                elif isinstance(x, (ast.Tuple, ast.List)) and x.elts and \
+                        const_str(x.elts[0]):
+                    out_.add(const_str(x.elts[0]))
+        return out_
+    found = {'table.attrs': [], 'table': []}     # (names, reported, node)
+    for n in ast.walk(f):
+        if isinstance(n, ast.For):
+            names_ = literal_names(n.iter)
+            if not names_:
+                lst_, _st = _literal_list(f, dotted(n.iter) or '', ce)
+                names_ = literal_names(lst_) if lst_ is not None else set()
+            if not names_:
+                continue
+            tnames = target_names(n.target)
+            for x in ast.walk(n):
+                if isinstance(x, ast.If) and isinstance(
+                        x.test, ast.Compare) and isinstance(
+                        x.test.ops[0], (ast.NotIn, ast.In)) and \
+                        dotted(x.test.left) in tnames and \
+                        dotted(x.test.comparators[0]) in found:
+                    missing = x.body if isinstance(
+                        x.test.ops[0], ast.NotIn) else x.orelse
+                    if not missing:
+                        continue
+                    found[dotted(x.test.comparators[0])].append(
+                        (names_, reports_on_every_path(missing), n))
+        elif isinstance(n, ast.If) and isinstance(
+                n.test, ast.Compare) and isinstance(
+                n.test.ops[0], (ast.NotIn, ast.In)) and \
+                const_str(n.test.left) and \
+                dotted(n.test.comparators[0]) in found:
+            missing = n.body if isinstance(n.test.ops[0], ast.NotIn) \
+                else n.orelse
+            if not missing:
+                continue        # a guard (`if 'shape' in attrs: use it`)
+            found[dotted(n.test.comparators[0])].append(
+                ({const_str(n.test.left)}, reports_on_every_path(missing),
+                 n))
+    for cont, keys in (('table.attrs', ('attrs',)),
+                       ('table', ('groups', 'datasets'))):
+        if not found[cont]:
+            continue
+        names_all = set()
+        for names_, rep, node_ in found[cont]:
+            if rep:
+                names_all |= names_
+        all_rep = all(rep for _, rep, _n in found[cont])
+        for k in keys:
+            out[k] = set(names_all) if not out[k] else (
+                out[k] & names_all if not checked[k] else out[k])
+            if not checked[k]:
+                checked[k] = all_rep and bool(names_all)
+            nodes.setdefault(k, found[cont][0][2])
     # the per-version metadata check: `'x' not in table` -> return <error>
     v210 = repo.func(VAL, 'TableValidator._valid_hdf5_metadata_v210')
     extra = set()
